@@ -19,7 +19,7 @@ BOUNDS = {
 }
 ASSUMPTIONS = [
     'representation invariant assumed on entry: peer_queue holds exactly the keys of peer_lock_request without duplicates; free slots >= 1 (what both callers guarantee)',
-    'UnboundedSender::send = "deliver to the grant list of the peer, or fail because the peer dropped its receiver": both outcomes symbolic',
+    'UnboundedSender::send = "deliver to the grant list of the peer, or fail because the peer dropped its receiver": both outcomes symbolic, a dropped receiver stays dropped',
     'the request / unlock handlers themselves are inline in a spawned task (multi-state coroutine over mpsc::Receiver) and are outside; their two call patterns '
     'are re-stated in the driver (driver code, not real code)',
 ]
@@ -63,6 +63,10 @@ def install_send(ctx, grants):
     def send(ctx_, args, ci, dt):
         sender = deref(args[0])
         room = args[1]
+        # a receiver that was found dropped stays dropped
+        if any(p is sender.data and r is None for (p, r) in grants):
+            grants.append((sender.data, None))
+            return err(Struct('SendError', [Cell(room)]))
         alive = ctx_.fresh_bool('receiver_alive')
         if ctx_.branch(alive):
             grants.append((sender.data, room))
